@@ -22,6 +22,7 @@ func init() {
 			"R4": "Player<X> invokes Game.<X>; published label equals the action constant of X",
 			"R5": "hand-side single action: validator call first with own index (and own action name); backend call / ready-group signal / state update dominated by validator success",
 			"R6": "validator definitions: engine-side ok ⇒ status playing ∧ index set; current-player validator ok ⇒ player exists ∧ index == current player; allowed-action validator ok ⇒ player exists ∧ HasAction(index, action)",
+			"R8": "the status the engine-side validator relies on (playing) is stored only after the hand's Start succeeded (shared with C07.R1)",
 			"R7": "last-action store is built from the caller's own id and player index and (wager actions, pass) followed by an action event carrying that same value; action record fields come from their parameters",
 		},
 		Assumptions: []string{"pokerface CheckAction rejects disallowed wager actions of the current player (outside the repo)"},
@@ -34,6 +35,23 @@ var actionLabel = map[string]string{"Ready": "ready", "Pay": "pay", "Pass": "pas
 
 func checkC10(c *Ctx) {
 	p := c.P
+	// R8: "a hand is being played" (the status the engine-side validator tests) is only
+	// ever recorded after the hand's Start succeeded
+	if lc := p.lifecycle(); lc.startFn != nil && lc.startCall != nil {
+		ev := callErrValue(lc.startCall)
+		n := 0
+		for _, ss := range p.FieldStores("TableState", "Status") {
+			if v, _ := ss.Val.ConstString(); v != "table_game_playing" {
+				continue
+			}
+			n++
+			ok := ss.Fn == lc.startFn && nilGuard(p.Guards(ss.Instr), true, func(x *Sym) bool { return x.V == ev })
+			c.Check(ok, "R8", "playing-status-after-start:"+FuncName(ss.Fn), p.InstrPos(ss.Instr), "status playing stored only after Start() returned nil", "the table is marked as playing although the hand may not have started: actions then pass the engine-side validator with no hand to act on")
+		}
+		c.Min("R8", "stores of the playing status", n, 1)
+	} else {
+		c.Bad("R8", "playing-status-after-start", "-", "start step not found")
+	}
 	ams := p.engineActionMethods()
 	c.Min("R2", "engine methods invoking a Game single action", len(ams), 9)
 	locks := p.Locks()
